@@ -159,7 +159,10 @@ def judge_traces(run, traces, d, tag):
             steps = t["steps"][: v["step"]]
             last = steps[-1]
             seen = set()
+            wrong_elems = {(c, reg) for c, reg, pred in v["fails"] if pred == "Elements"}
             for c, reg, pred in sorted(v["fails"]):
+                if pred not in ("Elements", "panic") and (c, reg) in wrong_elems:
+                    continue        # Length / Head / Fold of a register whose elements are already wrong: one finding
                 if pred == "HARNESS":
                     raise Infra("random script applies Tail to a register the model holds empty: " + script_text(steps))
                 impl = t["combos"][c - 1]["name"]
